@@ -107,7 +107,71 @@ func (c *FuncCtx) execIterator(st *State, call *ast.CallExpr, sel *ast.SelectorE
 	return c.mergeNext(outs)
 }
 
+// execRangeMapImpl: range over a map visits every key exactly once in an
+// ARBITRARY order. The order is a ghost sequence mkeys_N (fresh, unconstrained
+// except for: every element is a key of the map, elements are pairwise
+// distinct, every key occurs). Whatever is proved holds for every order the
+// runtime may choose. The map must not be written inside the loop.
 func (c *FuncCtx) execRangeMapImpl(st *State, x *ast.RangeStmt, coll *Val, li *loopInfo, inv []*Clause) []outcome {
-	limitf("%s: range over map not yet supported", c.eng.posStr(x.Pos()))
-	return nil
+	mt := under(coll.T).(*types.Map)
+	ks, vs := c.eng.sortOf(mt.Key()), c.eng.sortOf(mt.Elem())
+	_ = vs
+	idxName := fmt.Sprintf("idx_%d", li.ord)
+	seqArr := c.fresh(fmt.Sprintf("mkeys_%d", li.ord), fmt.Sprintf("(Array Int %s)", ks))
+	n := c.fresh(fmt.Sprintf("mlen_%d", li.ord), "Int")
+	dom := acc("dom_"+coll.Sort, coll.S)
+	st.assume(app("<=", "0", n))
+	i, j, kk := c.bvar("i"), c.bvar("j"), c.bvar("k")
+	st.assume(fmt.Sprintf("(forall ((%s Int)) (=> (and (<= 0 %s) (< %s %s)) (select %s (select %s %s))))", i, i, i, n, dom, seqArr, i))
+	st.assume(fmt.Sprintf("(forall ((%s Int) (%s Int)) (=> (and (<= 0 %s) (< %s %s) (< %s %s)) (not (= (select %s %s) (select %s %s)))))", i, j, i, i, j, j, n, seqArr, i, seqArr, j))
+	st.assume(fmt.Sprintf("(forall ((%s %s)) (=> (select %s %s) (exists ((%s Int)) (and (<= 0 %s) (< %s %s) (= (select %s %s) %s)))))", kk, ks, dom, kk, i, i, i, n, seqArr, i, kk))
+	keysT := types.NewSlice(mt.Key())
+	ksrt := c.eng.sortOf(keysT)
+	li.extra[fmt.Sprintf("mkeys_%d", li.ord)] = &Val{T: keysT, S: app("mk_"+ksrt, seqArr, "0", n, tFalse), Sort: ksrt}
+	li.extra[idxName] = &Val{T: tInt, S: "0", Sort: "Int"}
+	c.checkInv(st, li, inv, "init")
+	h := st.clone()
+	c.havocLoop(h, li)
+	k := c.fresh(idxName, "Int")
+	h.assume(mkAnd(app("<=", "0", k), app("<=", k, n)))
+	li.extra[idxName] = &Val{T: tInt, S: k, Sort: "Int"}
+	c.assumeInv(h, li, inv)
+	var outs []outcome
+	e := h.clone()
+	e.assume(mkEq(k, n))
+	outs = append(outs, outcome{oNext, e})
+	b := h.clone()
+	b.assume(app("<", k, n))
+	key := c.val(mkSel(seqArr, k), mt.Key())
+	b.assume(c.eng.typeFacts(key.S, key.T))
+	c.wfElem(b, key)
+	val := c.val(mkSel(acc("val_"+coll.Sort, coll.S), key.S), mt.Elem())
+	b.assume(mkSel(dom, key.S))
+	b.assume(c.eng.typeFacts(val.S, val.T))
+	if x.Key != nil {
+		c.bindRangeVar(b, x.Key, key, x.Tok)
+	}
+	if x.Value != nil {
+		c.bindRangeVar(b, x.Value, val, x.Tok)
+	}
+	c.ghostStack = append(c.ghostStack, li.extra)
+	bodyOuts := c.execBlock(b, x.Body.List)
+	c.ghostStack = c.ghostStack[:len(c.ghostStack)-1]
+	for _, o := range bodyOuts {
+		switch o.kind {
+		case oNext, oContinue:
+			li2 := *li
+			li2.extra = map[string]*Val{}
+			for a, v := range li.extra {
+				li2.extra[a] = v
+			}
+			li2.extra[idxName] = &Val{T: tInt, S: mkAdd(k, "1"), Sort: "Int"}
+			c.checkInv(o.st, &li2, inv, "step")
+		case oBreak:
+			outs = append(outs, outcome{oNext, o.st})
+		case oReturn:
+			outs = append(outs, o)
+		}
+	}
+	return c.mergeNext(outs)
 }
